@@ -9,20 +9,42 @@ def _bin(name, run):
 
 SPEC = {
     "bins": [
-        # one test package, three processes so that the quick tier runs them side by side
+        # one black-box test package, three processes so that the quick tier runs them side by side
         _bin("c13-nist", "^TestC13(P384|GroupNIST)$"),
         _bin("c13-edwards", "^TestC13(Goldilocks|FourQ|Ristretto)$"),
         _bin("c13-bls", "^TestC13(BLSGroups|Pairing|HashToGroup)$"),
+        # white-box: the internal edwards25519 point type of sign/ed25519
         {"name": "c13-ed25519", "pkg": "./sign/ed25519", "run": "^TestC13", "whitebox": True, "configs": _CFGS,
          "quick_configs": ["default"], "shards": {"quick": 1, "thorough": 4}},
     ],
-    "rule": "x",
-    "assumptions": COMMON_ASSUME,
-    "budget": {"quick": 900, "thorough": 3600},
+    "rule": "case = (curve API, exponent a of P=a*G, relation giving Q, scalar(s) of the full admitted byte width) drawn by rapid, plus plain enumerations "
+            "(every scalar within +-24 (thorough +-400) of 0, r, 2r, 3r and of the top of the width; CombinedMult/doubleMult on the grid 0<=m,n<=12 (thorough 40) x ~40 structured Q "
+            "incl. dyadic fractions d/2^j*G; pairing lists with identities at every position). All points are known multiples of the generator whose coordinates come from the big-integer "
+            "reference, so the expected value of every operation is (expression in the exponents)*G by the reference. "
+            "non-trivial = related pair (Q in {P,-P,identity,kP,+-G}), identity or generator operand, boundary scalar (0,1,small,r-1,r,r+1,>r,max,near r), related (m,n) (m=n, m=-n, 0, n*b=m), "
+            "a pairing list of length >=2 or containing an identity, a hash output whose membership was verified by the reference; distinct by FNV-64 of (curve, exponents, scalars)",
+    "assumptions": COMMON_ASSUME + [
+        "ref/curves (math/big affine arithmetic, written from the curve equations) is the oracle; it is self-tested per process against crypto/elliptic (FIPS 186 parameters and multiples), "
+        "r*G=O and h*r*P=O on every curve, the RFC 8032 section 7.1 key pair, RFC 9496 appendix A vectors and the published BLS12-381 generators",
+        "FourQ's base point is taken from fourq.Params().G as an input; the reference validates that it lies on the curve of the FourQ paper and has order exactly N",
+        "pairing values are compared inside circl's Gt (Exp/Mul/Inv/IsEqual): bilinearity is checked as e(pG1,qG2) = e(G1,G2)^(pq), there is no independent Fp12 reference",
+        "points of the prime-order group only (FourQ: any curve point), as the property states; decoders are C09's subject",
+    ],
+    "budget": {"quick": 900, "thorough": 5400},
 }
 
 MANIFEST = {
-    "technique": "x",
-    "text": "x",
-    "note": "x",
+    "technique": "property-based testing (rapid) against an independent big-integer reference (ref/curves: affine short-Weierstrass over Fp/Fp2, twisted Edwards over Fp/Fp2, RFC 9496 ristretto255 encode/decode) "
+                 "with exponent-tracked inputs, metamorphic relations, deterministic boundary-scalar sweeps and small exhaustive (m,n,Q) grids; black-box binary under default / purego / all-CPU-features-off, "
+                 "white-box overlay for the internal Ed25519 point type",
+    "text": "Every point given to circl is a*G for a generated exponent a (structured: 0, 1, -1, small, near r, random) with coordinates produced by the reference, Q is related to P "
+            "(P, -P, identity, kP, +-G, d/2^j*G, random) and scalars cover the whole admitted byte width (0, 1, r-1, r, r+1, 2r, > r, 2^k, max). For ecc/p384, group.P256/P384/P521/ristretto255, "
+            "ecc/goldilocks (and its twist through Curve.ScalarMult/ScalarBaseMult/CombinedMult), ecc/fourq (variable base includes the factor 392; arbitrary curve points T+aG with T of order dividing 392), "
+            "bls12381 G1/G2 and sign/ed25519's internal pointR1 the results of Add/Double/Neg/ScalarMult/ScalarBaseMult/CombinedMult are compared with (expression in exponents)*G of the reference, "
+            "plus P+P=2P, P+(-P)=O, (k+r)P=kP, fixed base = variable base on G. Hash-to-group outputs (group.HashToElement[NonUniform] x4, bls G1/G2 Hash/Encode; messages and tags of all lengths, tags > 255 bytes) "
+            "must be on the curve and be killed by r according to the reference. Pairing: e(pG1,qG2)=e(G1,G2)^(pq), e(aP,bQ)=e(P,Q)^(ab), e(G1,G2)!=1 of order r, identity arguments give one, "
+            "ProdPair/ProdPairFrac equal the product of single pairings (identities in either list at every position, zero exponents, signs +-1, lengths 0-5). "
+            "Exploration is the right level: the domain is astronomically large, the failures live on measure-zero sets (P=+-Q, accumulator equal to a table entry, scalars next to the order) that are generated on purpose, and the oracle is exact per case.",
+    "note": "trusts math/big and the self-tested reference; pairing correctness is relative to circl's own Gt arithmetic (bilinearity/non-degeneracy/product laws, not the value of the optimal ate pairing); "
+            "ristretto255 is the third-party go-ristretto behind group.Ristretto255; arm64 back-ends cannot run here; never establishes absence",
 }
